@@ -151,6 +151,25 @@ theorem locals_private (flows : List (String × FlowDef)) (fuel : Nat) (s : St) 
     findInst w (exec flows fuel s u body).1.insts = findInst w s.insts :=
   (exec_good flows fuel s u body w hfresh hw hlt).1
 
+/-- **Global context, whole executions** (by induction on the execution): a global variable `k`
+    that no flow instance has declared `global` by the end of the execution — contexts never lose
+    keys, so: that no instance declared at any time — has the value it had before.  Only keys
+    declared `global` by some instance can change; in particular, same-named *local* assignments in
+    any caller, callee or sibling never reach the global context. -/
+theorem globals_private (flows : List (String × FlowDef)) (fuel : Nat) (s : St) (u : Nat) (body : List Stmt)
+    (hu : (findInst u s.insts).isSome) (k : String)
+    (hk : ¬ DeclaredIn (exec flows fuel s u body).1 k) :
+    lookup (.name k) (exec flows fuel s u body).1.globals = lookup (.name k) s.globals :=
+  (exec_gstep flows fuel s u body hu).2 k hk
+
+/-- non-vacuity: after `$g = 1` in an instance that did not declare `$g`, nobody has declared it -/
+example : ¬ DeclaredIn (exec [] 5 { insts := [(0, { flowId := "main", arguments := [], context := [] })], next := 1 } 0
+    [.assign "g" (.lit (.int 1))]).1 "g" := by
+  rintro ⟨w, f, hf, hk⟩
+  simp [exec, St.evalIn, St.ctxOf, St.setCtx, findInst, replaceInst, assignCtx, has, lookup, eval, globalKey, Bind.set] at hf hk
+  obtain ⟨_, rfl⟩ := hf
+  simp [lookup] at hk
+
 /-- non-vacuity: a state with two instances having a same-named variable -/
 example : Fresh { insts := [(0, { flowId := "main", arguments := [], context := [(.name "v", .int 1)] }),
                             (1, { flowId := "fa", arguments := [], context := [(.name "v", .int 2)] })], next := 2 } := by
